@@ -304,13 +304,21 @@ func siblingWorld(r *rng.R) lcw.Input {
 			Mountpoints: true, HasWork: true, HasUpper: true, Imports: lcw.GenImports(r, in.Cfg, false)})
 	}
 	in = lcw.BuildInput(ws)
+	// one sibling may stay unmounted: busy (a process sits in it) without being mounted, it holds
+	// nothing of the base, which is idle once the mounted siblings are gone
+	unmounted := ""
+	if r.Chance(1, 3) {
+		unmounted = sibs[r.Intn(len(sibs))]
+	}
 	for _, n := range sibs {
-		in.Steps = append(in.Steps, step("mount", n, "", false))
+		if n != unmounted {
+			in.Steps = append(in.Steps, step("mount", n, "", false))
+		}
 	}
 	last := step("umount", "", "", true)
 	last.Users = map[string][]lcw.User{}
 	for _, n := range sibs {
-		if r.Chance(1, 2) {
+		if r.Chance(1, 2) || n == unmounted {
 			last.Users[n] = []lcw.User{{File: r.Pick([]string{"build", "build/usr", "overlayfs/upperdir", "build/root"})}}
 		}
 	}
